@@ -1,0 +1,35 @@
+//go:build verif
+
+package host
+
+// Contracts for the verification machinery in /verif (comment-only file; no code).
+// Store paths are injective on valid chain names (no '/') and the families are pairwise disjoint (C19).
+
+// verif:func PacketReceiptKey
+//@ inline
+//@ ensures [injective] forall s2 string :: forall d2 string :: forall q2 uint64 :: noslash(srcChain) && noslash(dstChain) && noslash(s2) && noslash(d2) && result == PacketReceiptKey(s2, d2, q2) ==> srcChain == s2 && dstChain == d2 && sequence == q2
+//@ ensures [disjoint]  forall s2 string :: forall d2 string :: forall q2 uint64 :: result != PacketCommitmentKey(s2, d2, q2) && result != PacketAcknowledgementKey(s2, d2, q2) && result != PacketRelayerKey(s2, d2, q2) && result != NextSequenceSendKey(s2, d2) && result != FullClientStateKey(s2)
+
+// verif:func PacketCommitmentKey
+//@ inline
+//@ ensures [injective] forall s2 string :: forall d2 string :: forall q2 uint64 :: noslash(srcChain) && noslash(dstChain) && noslash(s2) && noslash(d2) && result == PacketCommitmentKey(s2, d2, q2) ==> srcChain == s2 && dstChain == d2 && sequence == q2
+//@ ensures [disjoint]  forall s2 string :: forall d2 string :: forall q2 uint64 :: result != PacketAcknowledgementKey(s2, d2, q2) && result != PacketRelayerKey(s2, d2, q2) && result != NextSequenceSendKey(s2, d2) && result != FullClientStateKey(s2)
+
+// verif:func PacketAcknowledgementKey
+//@ inline
+//@ ensures [injective] forall s2 string :: forall d2 string :: forall q2 uint64 :: noslash(srcChain) && noslash(dstChain) && noslash(s2) && noslash(d2) && result == PacketAcknowledgementKey(s2, d2, q2) ==> srcChain == s2 && dstChain == d2 && sequence == q2
+//@ ensures [disjoint]  forall s2 string :: forall d2 string :: forall q2 uint64 :: result != PacketRelayerKey(s2, d2, q2) && result != NextSequenceSendKey(s2, d2) && result != FullClientStateKey(s2)
+
+// verif:func NextSequenceSendKey
+//@ inline
+//@ ensures [injective] forall s2 string :: forall d2 string :: noslash(srcChain) && noslash(dstChain) && noslash(s2) && noslash(d2) && result == NextSequenceSendKey(s2, d2) ==> srcChain == s2 && dstChain == d2
+
+// verif:import clienttypes github.com/teleport-network/teleport/x/xibc/core/client/types
+// verif:func FullConsensusStateKey
+//@ inline
+//@ ensures [injective] forall c2 string :: forall r2 uint64 :: forall h2 uint64 :: noslash(chainName) && noslash(c2) && result == FullConsensusStateKey(c2, clienttypes.NewHeight(r2, h2)) ==> chainName == c2 && height.GetRevisionNumber() == r2 && height.GetRevisionHeight() == h2
+//@ ensures [disjoint]  forall c2 string :: noslash(chainName) && noslash(c2) ==> result != FullClientStateKey(c2)
+
+// verif:func ConsensusStateKey
+//@ inline
+//@ ensures [injective] forall r2 uint64 :: forall h2 uint64 :: result == ConsensusStateKey(clienttypes.NewHeight(r2, h2)) ==> height.GetRevisionNumber() == r2 && height.GetRevisionHeight() == h2
